@@ -201,12 +201,20 @@ def run(rep, ctx):
     with rep.guard("R06.8"):
         from . import c05 as _c05
         _c05.r05_3(rep, ctx.model, "R06.8")
+    rep.rule("R06.9", "the symmetry tolerance given to the analyzer reaches spglib (through segfault_protect)")
+    with rep.guard("R06.9"):
+        from .. import symrules as _SR2
+        _SR2.tolerance_reaches_spglib(rep, ctx.model, "R06.9")
+    rep.rule("R06.10", "Wyckoff sets are assembled per orbit with letter/element read at the orbit's first atom (ids do not depend on atom order)")
+    with rep.guard("R06.10"):
+        from . import c07 as _c07
+        _c07.r07_3(rep, M, "R06.10")
     rep.floor("R06.6", 6000)
     rep.floor("R06.7", 8)
     rep.floor("R06.1", 230)
     rep.floor("R06.2", 4)
     rep.floor("R06.3", 3)
-    rep.floor("R06.4", 4)
+    rep.floor("R06.4", 5)
 
 
 META = {
